@@ -206,6 +206,20 @@ CLAIMED['C17'] = dict(
     note=NOTE_COMMON + 'IEEE-754 arithmetic of the default delay functions is not modelled (integer delays are used for exact comparison).',
     technique='Lean 4 proof (longest-path characterisation via the consistent-valuation lemma) + brute-force graph enumeration as oracle')
 
+CLAIMED['C20'] = dict(
+    text='PARTIAL by nature. Lean theorems: a stable sort by a key that is injective on the elements returns the same '
+         'list for every permutation of its input (so any text emitted from it is the same), with a witness that equal '
+         'keys make the result order-dependent (the defect fixed in _net_sorted); simulation values are independent of '
+         'the dependency order used. Runtime behaviour is observed, not modelled: the same seeded design (random designs '
+         'and a memory with three write ports sharing an enable) is built in separate processes under different '
+         'PYTHONHASHSEED values and allocation-noise patterns that demonstrably permute the net sets, and verilog (three '
+         'reset modes), testbench, VCD, print_trace texts and both simulators\' traces are compared byte for byte; every '
+         'export/visualisation/analysis call is checked for structural (fingerprint) and behavioural (Lean Spec) side '
+         'effects; output_to_firrtl\'s in-place rewrites must preserve behaviour.',
+    design='4 C20',
+    note=NOTE_COMMON + 'That every emitter routes every set iteration through a sorting helper is established by the differential, not by a theorem.',
+    technique='Lean 4 proof (permutation-invariance of key sort) + cross-process differential over hash seeds and allocation patterns')
+
 NOT_YET = {}
 
 
